@@ -60,8 +60,16 @@ def _method(name):
     return method
 
 
+_CLASSES = {}
+
+
 def make_element(states):
     """A fresh instance of a fresh class with the attributes given by *states* (one per NAMES)."""
+    cls = _CLASSES.get(tuple(states))
+    if cls is not None:
+        el = cls()
+        el.log = []
+        return el
     attrs = {}
     for name, st in zip(NAMES, states):
         if st == 0:
@@ -74,6 +82,7 @@ def make_element(states):
         else:
             attrs[name] = 5
     cls = type("Kind", (object,), attrs)
+    _CLASSES[tuple(states)] = cls       # classes carry no state; every element is a fresh instance
     el = cls()
     el.log = []
     return el
